@@ -302,6 +302,12 @@ def run_property(pid, cfg, tier, seed, replay=None):
                         cases += [l.rstrip("\n") for l in open(os.path.join(cdir, f)) if l.strip() and not l.startswith("#")]
             st["corpus_cases"] = len(cases)
             for g in s.gen_cmds("thorough" if escalate else tier, seed):
+                # VERIF_SCALE=k multiplies the number of generated cases (soak runs; not used by the registered commands)
+                scale = int(os.environ.get("VERIF_SCALE", "1"))
+                if scale != 1 and len(g) >= 3 and str(g[0]).startswith("gen") and not str(g[0]).startswith("gen-exh") \
+                        and isinstance(g[2], int):
+                    g = list(g)
+                    g[2] = g[2] * scale
                 rc, out, err = sh([bin_path(s.bin)] + [str(x) for x in g])
                 if rc != 0:
                     raise RuntimeError(f"generator {s.bin} {g} failed: {err[-2000:]}")
